@@ -498,7 +498,7 @@ def describe():
                  "every file write, KILL_AFTER the last call), each in a fresh clone, followed by a fault-free "
                  "recovery run and an identical re-run. distinct_nontrivial counts distinct tuples (option shape, "
                  "source spelling shape, fault kind, system call and path class at the fault, old/new pattern of "
-                 "the outputs afterwards) observed in runs that reached the output phase."),
+                 "the outputs afterwards) observed in runs that reached the output phase. After an adopted crash the next version of a source is often much shorter or much longer (resize edits); the freshness twin removes predicted outputs and every file that is not part of the case."),
         "fingerprint": "option shape | spelling shape | fault kind | syscall:path-class | per-output old/new/same pattern",
         "components": {
             "real": ["qmluic generate-ui release binary built from /repo working tree (argument parsing, discovery, type map, uigen, tempfile/rustix write path)",
